@@ -230,6 +230,40 @@ def run(chk):
         t = random_table(rng, w, rng.randint(1, 12), ordered_overlapping=True)
         rng.shuffle(t)
         traces.append(run_methods(t, w, rng, chk, any_order=True))
+    # ---- beyond C04: rig's own table utilities (expand_entries, table_is_subset_of), same first-match semantics
+    import warnings
+    from rig.routing_table import expand_entries, table_is_subset_of
+    extras = []
+    for i in range(chk.pick(300, 5000)):
+        w = rng.choice((3, 4, 5, 6))
+        t = random_table(rng, w, rng.randint(1, 10), ordered_overlapping=rng.random() < 0.5)
+        evs = []
+        with warnings.catch_warnings():
+            warnings.simplefilter("ignore")
+            try:
+                evs.append(["expand", enc_table(list(expand_entries(t)))])
+            except Exception as ex:
+                evs.append(["min", "expand_entries", [], type(ex).__name__, [], 0, 0])
+            others = [list(t)]
+            try:
+                others.append(oc_mod.minimise(list(t), None))
+            except Exception:
+                pass
+            if len(t) > 1:
+                k = rng.randrange(len(t))
+                mutated = list(t)
+                mutated[k] = RTE(rng.choice(ROUTE_SETS), t[k].key, t[k].mask, t[k].sources)
+                others.append(mutated)
+                others.append(t[:k] + t[k + 1:])
+            for o in others:
+                try:
+                    evs.append(["subset", enc_table(o), 1 if table_is_subset_of(t, o) else 0])
+                except Exception as ex:
+                    evs.append(["min", "table_is_subset_of", [], type(ex).__name__, [], 0, 0])
+        extras.append(dict(w=w, orig=enc_table(t), ev=evs))
+    chk.validate_beyond("RoutingTableTrace", "RoutingTableTrace.cfg", extras,
+                        "expand_entries / table_is_subset_of against first-match semantics", batch=3000)
+
     chk.rule = ("the empty table; all tables of <= 2 entries and sampled 3-4 entry tables over 3 key bits (orthogonal in "
                 "any order, or overlapping in generality order), random tables over 4..10 active bits with up to 40 "
                 "entries and random fixed high bits; each through remove_default_routes, ordered_covering, "
